@@ -790,7 +790,23 @@ func kindAtlas(c *hlib.Ctx) {
 		return
 	}
 	c.Stat(fmt.Sprintf("atlas-tightest-chart-box:%s-borders", tightestChartBox(x, uv, res)), 1)
-	// MapFn round trip at barycentric sample points (float arithmetic: `near`, validation)
+	// MapFn round trip at barycentric sample points (float arithmetic: `near`, validation).  Half of
+	// the atlases are queried through a mirrored copy (v -> 1-v: the image convention with V pointing
+	// down; u -> 1-u; u <-> v): still inside the unit square with disjoint charts, but every UV
+	// triangle runs clockwise.
+	switch c.Rng.Intn(6) {
+	case 0:
+		uv = mirrorUV(uv, func(p model2d.Coord) model2d.Coord { return model2d.XY(p.X, 1-p.Y) })
+		c.Stat("mapfn-atlas:flipped-v", 1)
+	case 1:
+		uv = mirrorUV(uv, func(p model2d.Coord) model2d.Coord { return model2d.XY(1-p.X, p.Y) })
+		c.Stat("mapfn-atlas:flipped-u", 1)
+	case 2:
+		uv = mirrorUV(uv, func(p model2d.Coord) model2d.Coord { return model2d.XY(p.Y, p.X) })
+		c.Stat("mapfn-atlas:transposed", 1)
+	default:
+		c.Stat("mapfn-atlas:as-built", 1)
+	}
 	var fn func(model2d.Coord) (model3d.Coord3D, *model3d.Triangle)
 	if st := watchdog(func() { fn = uv.MapFn() }); st != "ok" {
 		c.Emit("c18 mapfn N "+st, "ok")
@@ -861,6 +877,15 @@ func tightestChartBox(x *indexed, uv model3d.MeshUVMap, res int) string {
 	default:
 		return "62-or-more"
 	}
+}
+
+// mirrorUV: the UV map with f applied to every UV corner (same 3-D triangles).
+func mirrorUV(uv model3d.MeshUVMap, f func(model2d.Coord) model2d.Coord) model3d.MeshUVMap {
+	res := model3d.MeshUVMap{}
+	for t, u := range uv {
+		res[t] = [3]model2d.Coord{f(u[0]), f(u[1]), f(u[2])}
+	}
+	return res
 }
 
 func sampleBary(c *hlib.Ctx, allowEdge bool) [3]float64 {
@@ -1022,13 +1047,34 @@ func kindMapFnExact(c *hlib.Ctx) {
 			h[i][j] = model3d.XYZ(float64(i)+dy(c, 1, 2)/4, float64(j)+dy(c, 1, 2)/4, dy(c, 2, 3))
 		}
 	}
-	uvp := func(i, j int) model2d.Coord { return model2d.XY(ox+sx*float64(i), oy+sy*float64(j)) }
+	// The chart is laid out through one of the eight symmetries of its bounding box (a mirrored chart:
+	// V pointing down, a U-mirrored half of a symmetric model, a transposed or turned chart); four of
+	// them reverse the orientation, i.e. the UV corners of every triangle run clockwise.  Index based,
+	// so still exact.  Independently a triangle may be stored with its corners in the reverse order
+	// (both the 3-D and the UV triple: the same affine map, labelled the other way round; in half of the
+	// layouts, a third of their triangles).
+	sym := pickBoxSym(c)
+	uvp := func(i, j int) model2d.Coord { return sym.at(ox, oy, sx, sy, nx, ny, i, j) }
 	uv := model3d.MeshUVMap{}
 	var tris []*model3d.Triangle
+	cw, ccw := 0, 0
+	relabel := c.Rng.Intn(2) == 0 // half of the layouts keep the stored order of every triangle
+	put := func(t *model3d.Triangle, u [3]model2d.Coord) {
+		if relabel && c.Rng.Intn(3) == 0 {
+			t[1], t[2] = t[2], t[1]
+			u[1], u[2] = u[2], u[1]
+		}
+		if (u[1].X-u[0].X)*(u[2].Y-u[0].Y)-(u[2].X-u[0].X)*(u[1].Y-u[0].Y) < 0 {
+			cw++
+		} else {
+			ccw++
+		}
+		uv[t] = u
+		tris = append(tris, t)
+	}
 	add := func(a, b, d [2]int) {
 		t := &model3d.Triangle{h[a[0]][a[1]], h[b[0]][b[1]], h[d[0]][d[1]]}
-		uv[t] = [3]model2d.Coord{uvp(a[0], a[1]), uvp(b[0], b[1]), uvp(d[0], d[1])}
-		tris = append(tris, t)
+		put(t, [3]model2d.Coord{uvp(a[0], a[1]), uvp(b[0], b[1]), uvp(d[0], d[1])})
 	}
 	for i := 0; i < nx; i++ {
 		for j := 0; j < ny; j++ {
@@ -1048,13 +1094,14 @@ func kindMapFnExact(c *hlib.Ctx) {
 			return model3d.XYZ(8+float64(i)+dy(c, 1, 2)/4, float64(j)+dy(c, 1, 2)/4, dy(c, 2, 3))
 		}
 		cq := [2][2]model3d.Coord3D{{q(0, 0), q(0, 1)}, {q(1, 0), q(1, 1)}}
-		cu := func(i, j int) model2d.Coord { return model2d.XY(ox+2+float64(i)/2, oy+float64(j)/2) }
+		sym2 := pickBoxSym(c) // its own symmetry: one chart of an atlas may be mirrored, another not
+		cu := func(i, j int) model2d.Coord { return sym2.at(ox+2, oy, 0.5, 0.5, 1, 1, i, j) }
 		for _, tr := range [][3][2]int{{{0, 0}, {1, 0}, {1, 1}}, {{0, 0}, {1, 1}, {0, 1}}} {
 			t := &model3d.Triangle{cq[tr[0][0]][tr[0][1]], cq[tr[1][0]][tr[1][1]], cq[tr[2][0]][tr[2][1]]}
-			uv[t] = [3]model2d.Coord{cu(tr[0][0], tr[0][1]), cu(tr[1][0], tr[1][1]), cu(tr[2][0], tr[2][1])}
-			tris = append(tris, t)
+			put(t, [3]model2d.Coord{cu(tr[0][0], tr[0][1]), cu(tr[1][0], tr[1][1]), cu(tr[2][0], tr[2][1])})
 		}
 	}
+	c.Stat("mapfn-exact-uv-orientation:"+orientLabel(cw, ccw), 1)
 	var fn func(model2d.Coord) (model3d.Coord3D, *model3d.Triangle)
 	if st := watchdog(func() { fn = uv.MapFn() }); st != "ok" {
 		c.Emit("c18 mapfn E "+st, "ok")
@@ -1067,7 +1114,51 @@ func kindMapFnExact(c *hlib.Ctx) {
 	} else {
 		c.Stat("mapfn-exact-interior", 1)
 	}
+	if w[1] != w[2] {
+		// off the median through corner 0: the weights of corners 1 and 2 can be told apart
+		c.Stat("mapfn-exact-off-median", 1)
+	}
 	emitMapFn(c, "E", uv, fn, t, w)
+}
+
+// boxSym is one of the eight symmetries of an axis-aligned box, acting on grid indices: the lattice
+// point (i, j) of an nx x ny grid with steps (sx, sy) and lower corner (ox, oy) goes to the lattice
+// point of the mirrored / transposed grid with the same lower corner.  Exact whenever the untransformed
+// grid is (only index arithmetic and the same products and sums).
+type boxSym struct{ flipX, flipY, swap bool }
+
+func pickBoxSym(c *hlib.Ctx) boxSym {
+	if c.Rng.Intn(3) == 0 {
+		return boxSym{}
+	}
+	return boxSym{c.Rng.Intn(2) == 0, c.Rng.Intn(2) == 0, c.Rng.Intn(2) == 0}
+}
+
+// reverses reports whether the symmetry reverses the orientation.
+func (s boxSym) reverses() bool { return (s.flipX != s.flipY) != s.swap }
+
+func (s boxSym) at(ox, oy, sx, sy float64, nx, ny, i, j int) model2d.Coord {
+	if s.flipX {
+		i = nx - i
+	}
+	if s.flipY {
+		j = ny - j
+	}
+	if s.swap {
+		return model2d.XY(ox+sy*float64(j), oy+sx*float64(i))
+	}
+	return model2d.XY(ox+sx*float64(i), oy+sy*float64(j))
+}
+
+func orientLabel(cw, ccw int) string {
+	switch {
+	case cw == 0:
+		return "all-counter-clockwise"
+	case ccw == 0:
+		return "all-clockwise"
+	default:
+		return "mixed"
+	}
 }
 
 // ---------------------------------------------------------------- fixed cases
